@@ -5,8 +5,11 @@
 //                          adjacent to the data); array_t(shape) makes C strides, or Fortran strides when Flags has
 //                          f_style (as pybind11's constructor does); shape(i), strides(i), data(), mutable_data(),
 //                          unchecked<N>() / mutable_unchecked<N>() index through the strides without any bounds
-//                          check (as pybind11's proxies do); data(i, j, ...) / at(i, j, ...) go through the strides
-//                          WITH pybind11's bounds check (index_error)
+//                          check (as pybind11's proxies do) but REFUSE an array whose number of dimensions is not N
+//                          (std::domain_error "array has incorrect number of dimensions", as pybind11 does -- the only
+//                          place where a wrong-ndim argument is turned away); shape(i) / strides(i) with i >= ndim
+//                          raise index_error("invalid axis") as pybind11's fail_dim_check does;
+//                          data(i, j, ...) / at(i, j, ...) go through the strides WITH pybind11's bounds check (index_error)
 //   the CALL BOUNDARY      array_t<T, Flags>::ensure(src) is what pybind11's type caster does for an ndarray whose
 //                          dtype is already T (PyArray_FromAny(src, dtype, 0, 0, ENSUREARRAY | Flags)): if Flags has
 //                          c_style and src is not C-contiguous (numpy's definition: extent-1 axes and empty arrays
@@ -37,6 +40,10 @@ inline thread_local long alloc_without_gil = 0;
 }
 
 struct index_error : std::runtime_error { using std::runtime_error::runtime_error; };
+// the other built-in exception translations a kernel may use to turn an argument away
+struct value_error : std::runtime_error { using std::runtime_error::runtime_error; };
+struct type_error : std::runtime_error { using std::runtime_error::runtime_error; };
+struct buffer_error : std::runtime_error { using std::runtime_error::runtime_error; };
 
 struct array { enum { c_style = 1, f_style = 2, forcecast = 16 }; };
 
@@ -87,8 +94,13 @@ public:
     array_data(std::vector<ssize_t> shape, std::vector<ssize_t> byte_strides, ssize_t nbase, ssize_t first)
         : shp(std::move(shape)), str(std::move(byte_strides)) { allocate(nbase); ptr = buf.get() + first; }
     ssize_t ndim() const { return ssize_t(shp.size()); }
-    ssize_t shape(ssize_t i) const { return shp[size_t(i)]; }           // pybind11 raises on i >= ndim; callers here never do
-    ssize_t strides(ssize_t i) const { return str[size_t(i)]; }
+    void dim_check(ssize_t i) const {                                   // pybind11: fail_dim_check(dim, "invalid axis")
+        if (i < 0 || i >= ndim()) throw index_error("invalid axis: " + std::to_string(i) + " (ndim = " + std::to_string(ndim()) + ")"); }
+    void ndim_check(ssize_t n) const {                                  // pybind11: unchecked<N>() / mutable_unchecked<N>()
+        if (ndim() != n) throw std::domain_error("array has incorrect number of dimensions: " + std::to_string(ndim()) +
+                                                 "; expected " + std::to_string(n)); }
+    ssize_t shape(ssize_t i) const { dim_check(i); return shp[size_t(i)]; }
+    ssize_t strides(ssize_t i) const { dim_check(i); return str[size_t(i)]; }
     const std::vector<ssize_t> &shape_vec() const { return shp; }
     const std::vector<ssize_t> &strides_vec() const { return str; }
     ssize_t size() const { ssize_t n = 1; for (auto d : shp) n *= d; return n; }
@@ -106,9 +118,11 @@ public:
         if (ssize_t(sizeof...(Ix)) != ndim()) throw index_error("index dimension mismatch");
         return *mutable_data(ix...); }
     template <ssize_t N> unchecked_ref<const T, N, false> unchecked() const {
+        ndim_check(N);
         unchecked_ref<const T, N, false> r{reinterpret_cast<const unsigned char *>(ptr), {}, {}};
         for (ssize_t k = 0; k < N; ++k) { r.dim[k] = shp[size_t(k)]; r.str[k] = str[size_t(k)]; } return r; }
     template <ssize_t N> unchecked_ref<T, N, true> mutable_unchecked() {
+        ndim_check(N);
         unchecked_ref<T, N, true> r{reinterpret_cast<unsigned char *>(ptr), {}, {}};
         for (ssize_t k = 0; k < N; ++k) { r.dim[k] = shp[size_t(k)]; r.str[k] = str[size_t(k)]; } return r; }
     // harness side: the whole allocation behind this array and whether two arrays share it
